@@ -150,6 +150,7 @@ def enumerate_seqs(ctx, label, alphabet, maxlen, cs=0):
         ctx.add_tlc(res, label)
         for e in exports:
             e["cs"] = cs
+        exports.sort(key=lambda e: e["seq"])
         return exports
     finally:
         rmtree(wd)
